@@ -24,7 +24,8 @@ inductive Refusal
   | operationError                 -- OperationError: argument outside its enumeration / inconsistent combination / invalid URL
   | missingCapability (cap : Str)  -- MissingCapabilityError from RPC._assert
   | valueError                     -- lxml refuses the string as a tag name or as text (not XML-compatible)
-  | xmlError                       -- XMLError from validated_element: the configuration is not rooted in `config`
+  | xmlError                       -- XMLError from validated_element: the configuration / filter is not rooted in `config` / `filter`
+  | withDefaultsError              -- WithDefaultsError: mode not among those the server's with-defaults capability lists
 deriving DecidableEq, Repr
 
 abbrev Res := Except Refusal XNode
